@@ -13,8 +13,9 @@ CLAIMS = {
         text='Exhaustive comparison of every entry of every compiled copy of the precomputed GF(2^4)/GF(2^8) log/exp/inv/mul/packed '
              'tables (read from the IR initialisers) with an independent reference implementation of the two fields; for the tables the '
              'GF(2^8) legacy codec generates at first use: structural rules only (primitive polynomial string selected, only the '
-             'parameterless generators write the tables, no reader can run before initialisation).',
-        design_ref='DESIGN.md section 5 (R-TABLES, R-POLY, R-INIT-BEFORE-USE) and section 6 C14',
+             'parameterless generators write the tables, every accumulated entry is initialised in the same run so that a second '
+             'of_rs_init yields the same tables, no reader can run before initialisation).',
+        design_ref='DESIGN.md section 5 (R-TABLES, R-POLY, R-INIT-BEFORE-USE), section 6 C14, 11.2 (R-ACCUM-INIT)',
         note='Decides the precomputed tables completely (finite data); for the generated tables decides only the structural clauses, not '
              'that the generator loops compute the right entries. ' + BASE + 'Reference field arithmetic: 30 lines in rules_tables.py.',
         technique='constant-data comparison over IR initialisers + who-may-write / init-before-use dominance rules'),
@@ -100,18 +101,23 @@ CLAIMS = {
     'C18': dict(
         text='Bit addressing geometry of get/set/flip and the allocator is consistent with the word type; the byte popcount table is '
              'exact (exhaustive); the bit-serial popcount visits every bit; guarded indices are compared strictly with the dimension the '
-             'indexed array was allocated with; destructor releases both allocations; the solver swaps right-hand sides with rows.',
-        design_ref='DESIGN.md section 6 C18; rules R-WORDGEOM, R-HW8, R-BITLOOP, R-IDX-GUARD, R-OWN-FIELD, R-PAIRSWAP',
-        note='Does NOT decide equality with the bit-matrix model for all dimensions, the SWAR popcount formulas, nor that the solver '
+             'indexed array was allocated with; destructor releases both allocations; the solver swaps right-hand sides with rows. '
+             'The SWAR popcounts (of_popcount_3, of_hweight32) are proven equal to the population count for every input by abstract '
+             'interpretation over integer linear forms of the input bits; the table popcount and the array popcount are decided '
+             'structurally on top of the exact byte table (extent and once-only coverage for every size class).',
+        design_ref='DESIGN.md section 6 C18 and 11.2; rules R-WORDGEOM, R-HW8, R-SWAR, R-HW32-TABLE, R-HW-ARRAY, R-BITLOOP, R-IDX-GUARD, '
+                   'R-OWN-FIELD, R-PAIRSWAP, R-SCRATCH-RESET, R-DENSE-ROWFILL, R-KEA (XOR kernels)',
+        note='Does NOT decide equality with the bit-matrix model for all dimensions, nor that the solver '
              'returns the unique solution iff full column rank. ' + BASE,
-        technique='constant-geometry consistency, constant-data comparison, loop trip count, guard-vs-extent registry'),
+        technique='constant-geometry consistency, constant-data comparison, bit-linear abstract interpretation, loop trip count, '
+                  'guard-vs-extent registry, kernel extent analysis'),
     'C05': dict(
         text='"Depends only on (k, n, N1, seed), same for encoder and decoder, after any history" is decided by effect analysis of the matrix '
              'constructor and everything it calls, its call-site arguments and role independence, PRNG seeding dominating every draw '
              '(inter-procedurally), accepted seeds being valid PRNG seeds, and the Park-Miller / RFC scaling proofs of C19; the '
              'structurally visible part of the RFC 5170 shape (N1 distinct ones per source column, exact staircase) is checked from loop '
              'ranges and insertion arguments.',
-        design_ref='DESIGN.md section 6 C05; rules R-PURE-PCHK, R-SRAND-DOM, R-PARAM(seed,N1), R-SEEDRANGE, R-PRNG-STEP, R-FPSCALE, R-STAIRCASE, R-COLFILL, R-VERBOSITY',
+        design_ref='DESIGN.md section 6 C05; rules R-PURE-PCHK, R-SRAND-DOM, R-PARAM(seed,N1), R-SEEDRANGE, R-PRNG-STEP, R-FPSCALE, R-STAIRCASE, R-COLFILL, R-ROWDEG2, R-VERBOSITY',
         note='Does NOT decide that the left-side fill reproduces RFC 5170\'s matrix entry for entry (choice list, replacement, extra-entry rule). ' + BASE,
         technique='effect/purity analysis, inter-procedural dominance of seeding, affine loop-range sets of inserted positions'),
     'C12': dict(
@@ -155,16 +161,21 @@ CLAIMS = {
         text='The fields both RS codecs compute in are the documented ones (precondition of codec 1 / codec 2 byte compatibility); '
              'encoders never write a source buffer; a NULL output slot is replaced by a library allocation before use; the output is '
              'zeroed and exactly the k scaled sources (RS) / the other entries of the equation (LDPC) are accumulated; k <= esi < n; the '
-             'accumulation kernels are exact (kernel extent analysis).',
-        design_ref='DESIGN.md section 6 C06; rules R-TABLES, R-POLY, R-RO-FLOW, R-NULLSLOT, R-ENC-LOOP, R-APIGUARD, R-DISPATCH, R-KEA, R-SIBLINGS (11.2)',
+             'accumulation kernels are exact (kernel extent analysis); the LDPC-Staircase matrix is built by the RFC 5170 steps '
+             '(N1 entries per source column, every row topped up to two entries, staircase) from the proven Park-Miller generator.',
+        design_ref='DESIGN.md section 6 C06; rules R-TABLES, R-POLY, R-RO-FLOW, R-NULLSLOT, R-ENC-LOOP, R-APIGUARD, R-DISPATCH, R-KEA, '
+                   'R-SIBLINGS, R-COLFILL, R-ROWDEG2, R-STAIRCASE, R-SRAND-DOM, R-PRNG-STEP, R-FPSCALE (11.2)',
         note='Does NOT decide the generator coefficients (that RS repair symbols are the Vandermonde-systematic ones). ' + BASE,
         technique='constant-data comparison, write-sink flow analysis with callee summaries, dominance, loop-range rules, KEA'),
     'C07': dict(
         text='Argument guards dominate every table access; no write sink (libc writers, kernels, writing callees by summary) targets a '
              'received symbol or encoder source (RS decoding provably works on private copies); NULL output slots are filled first; '
              'guarded indices are strict and against the allocated extent (registry from allocation sites); no use after free / dangling '
-             'member / stale free list; control-block layouts match the generic views; the kernels touch exactly [0, size).',
-        design_ref='DESIGN.md section 6 C07; rules R-APIGUARD, R-RO-FLOW, R-NULLSLOT, R-IDX-GUARD, R-UAF, R-DANGLING, R-FREELIST, R-LAYOUT, R-SRCPTR, R-KEA',
+             'member / stale free list; control-block layouts match the generic views; the kernels touch exactly [0, size); the RS '
+             'decoders start their scan for k non-NULL table entries only when k distinct symbols were counted (duplicate suppression, '
+             'counters, threshold).',
+        design_ref='DESIGN.md section 6 C07; rules R-APIGUARD, R-RO-FLOW, R-NULLSLOT, R-IDX-GUARD, R-UAF, R-DANGLING, R-FREELIST, R-LAYOUT, '
+                   'R-SRCPTR, R-KEA, R-DUP, R-COUNT, R-RS-THRESHOLD',
         note='Does NOT decide bounds of accesses whose index is read out of the sparse matrix or an index table, heap layout, alignment '
              'traps. ' + BASE,
         technique='guard/dominance rules, flow of written pointers with callee summaries, typestate walks, extent registry, KEA'),
